@@ -38,6 +38,7 @@ def op_st():
     return st.one_of(
         st.tuples(st.sampled_from(["get", "get", "get-query", "upload", "delete", "get-upper"]), hp).map(lambda t: {"op": t[0], "hp": list(t[1])}),
         st.tuples(hp, hp).map(lambda t: {"op": "get-redirect", "hp": list(t[0]), "to": list(t[1])}),
+        st.tuples(hp, st.sampled_from(KINDS)).map(lambda t: {"op": "get-redirect-switch", "hp": list(t[0]), "cert2": t[1]}),
         st.tuples(hp, st.sampled_from(KINDS)).map(lambda t: {"op": "rotate", "hp": list(t[0]), "cert": t[1]}),
         st.tuples(hp, st.sampled_from(PARSABLE)).map(lambda t: {"op": "trust", "hp": list(t[0]), "cert": t[1]}),
         hp.map(lambda t: {"op": "revoke", "hp": list(t)}),
@@ -155,7 +156,44 @@ def run_history(case: dict):
         for idx, op in enumerate(case["ops"]):
             o = op["op"]
             where = f"step {idx} {op}"
-            if o in ("get", "get-query", "get-upper", "upload", "delete", "get-redirect", "get-tofu-off"):
+            if o == "get-redirect-switch":
+                # same-origin redirect; the connection opened for the follow-up hop presents another certificate
+                hp = tuple(op["hp"])
+                peer = net.peers[hp]
+                peer.cert_sequence = [certs.get(state[hp])] * (len(peer.conns) + 1) + [certs.get(op["cert2"])]
+                res, log = await fetch("get-redirect", hp, hp)
+                stats["fetches"] += 1
+                contacted = [(h, p) for (h, p, _t) in log]
+                exp1, fp1, pin1 = expect_for(hp)
+                first_ok = exp1 in ("first-use", "match")
+                if exp1 == "first-use":
+                    model[hp] = fp1
+                    stats["first_use"] += 1
+                if first_ok and len(contacted) >= 2:
+                    state[hp] = op["cert2"]  # the peer keeps presenting the second certificate
+                    peer.set_cert(certs.get(op["cert2"]))
+                peer.cert_sequence = None
+                if not first_ok:
+                    if res[0] == "ok":
+                        return viol("changed-certificate-accepted" if exp1 == "changed" else "unreadable-certificate-accepted",
+                                    f"{where}: first hop must fail ({exp1}); call returned {res}", why=exp1)
+                    if len(contacted) > 1:
+                        return viol("hop-contacted-after-failure", f"{where}: {contacted}")
+                else:
+                    c2 = certs.get(op["cert2"])
+                    same = op["cert2"] in PARSABLE and c2.fingerprint == model[hp]
+                    if same:
+                        if res[0] != "ok" or res[2] != f"BODY-{hp[0]}-{hp[1]}":
+                            return viol("valid-certificate-refused", f"{where}: {res}")
+                    else:
+                        stats["mismatch_fetches"] += 1
+                        if res[0] == "ok":
+                            return viol("changed-certificate-accepted",
+                                        f"{where}: the follow-up hop to the same host presented {op['cert2']} ({c2.fingerprint[:20]}), pin {model[hp][:20]}; call returned {res}",
+                                        why="changed-on-later-hop")
+                        if op["cert2"] in PARSABLE and (res[0] != "changed" or res[1] != model[hp] or res[2] != c2.fingerprint):
+                            return viol("wrong-error-for-changed-certificate", f"{where}: {res}")
+            elif o in ("get", "get-query", "get-upper", "upload", "delete", "get-redirect", "get-tofu-off"):
                 hp = tuple(op["hp"])
                 hops = [hp] + ([tuple(op["to"])] if o == "get-redirect" else [])
                 if o == "get-tofu-off":
